@@ -510,7 +510,7 @@ class FakeLambdaClient:
             raise make_client_error(f["err"])
         return k
 
-    def _epilogue(self, k, n_ops):
+    def _epilogue(self, k, n_ops, ops=()):
         w = self.w
         f = w.take_fault(lambda f: f["kind"] == "crash" and f.get("at") == "api" and f.get("call") == k
                          and f.get("phase") == "after")
@@ -524,7 +524,7 @@ class FakeLambdaClient:
         d = self._latency(1)
         if d > 0:
             w.sim.sleep(d, True, "api-latency(resp)")
-        w.rec("api-end", call=k, ok=True, n_ops=n_ops)
+        w.rec("api-end", call=k, ok=True, n_ops=n_ops, ops=[list(x) for x in ops])
 
     def checkpoint_durable_execution(self, DurableExecutionArn, CheckpointToken, Updates, **kw):  # noqa: N803
         w, be = self.w, self.be
@@ -556,7 +556,7 @@ class FakeLambdaClient:
                "NewExecutionState": {"Operations": [be.wire(o) for o in ops]}}
         if marker:
             out["NewExecutionState"]["NextMarker"] = marker
-        self._epilogue(k, len(ops))
+        self._epilogue(k, len(ops), [(o["Id"], o["Status"]) for o in ops])
         return out
 
     def get_durable_execution_state(self, DurableExecutionArn, CheckpointToken, Marker, MaxItems=1000, **kw):  # noqa: N803
@@ -572,5 +572,5 @@ class FakeLambdaClient:
         if rest:
             out["NextMarker"] = be._store_page(rest)
         w.hit("get-state-page")
-        self._epilogue(k, len(cur))
+        self._epilogue(k, len(cur), [(i, be.ops[i]["Status"]) for i in cur])
         return out
